@@ -309,13 +309,15 @@ def normals3d_cases(draw):
     r = draw(gm.recipes3d(perm_ok=False))
     source = draw(st.sampled_from(["gmsh", "recon", "recon_moved"]))
     ops = draw(cg.motions(3))
-    return dict(recipe=r, ops=ops, source=source)
+    # rev: the contour of the extruded polygon is given clockwise (same body; the source surface then faces -z)
+    return dict(recipe=r, ops=ops, source=source, rev=draw(st.booleans()))
 
 
 def check_normals_3d(case, rec):
     r, ops, source = case["recipe"], case["ops"], case["source"]
-    mesh = gm.build(r)
+    mesh = gm.build(dict(r, verts=r["verts"][::-1]) if case.get("rev") else r)
     types = gm.mesh_types(mesh)
+    rec.label("normals3d:contour_cw" if case.get("rev") else "normals3d:contour_ccw")
     geo = c9.Geometry(r)
     meas, c0 = _exact_2d3d(r)
     surf = sum(f.measure() for f in geo.faces)
@@ -714,6 +716,7 @@ def enum_normals(tier):
         for source in ("gmsh", "recon", "recon_moved"):
             for ops in ("rot3", "mirror3"):
                 yield dict(recipe=_table_recipe(et, False), ops=_OPS[ops], source=source)
+        yield dict(recipe=_table_recipe(et, False), ops=_OPS["rot3"], source="gmsh", rev=True)
 
 
 def check_normals_table(case, rec):
